@@ -14,8 +14,9 @@ THEOREMS = ['sort_result', 'sort_permutation', 'sort_sorted', 'sort_stable', 'na
             'sort_spec_preserves_lengths_partial', 'no_cross_list_movement', 'sort_spec_no_cross_list_movement',
             'argsort_realises_sort', 'argsort_positions', 'argsort_realises_sort_cols']
 RULE = ('value-first random layouts (numeric incl. NaN/inf floats, bool, strings; options at leaf and list level) x '
-        '(sort | argsort) x axis x ascending x stable; argsort is run with stable=True (an unstable argsort is checked '
-        'only through sort). non-trivial = some list along the axis has >= 2 elements; distinct by case text')
+        '(sort | argsort) x axis x ascending x stable; in that stream argsort is run with stable=True; a second stream of '
+        'long lists (17-70 numbers with many NaN / equal keys) runs sort and argsort stable and UNSTABLE, the unstable '
+        'argsort judged by: positions are a permutation of each list and carrying by them gives the sorted list. non-trivial = some list along the axis has >= 2 elements; distinct by case text')
 ASSUMPTIONS = ['the layout-level model covers the innermost axis; for other axes the implementation is compared with the '
                'value-level specification only (verdict agree ... nomodel, counted)',
                'records and unions are outside the specification (the library refuses or treats fields separately)']
@@ -45,7 +46,130 @@ def cases(rng, tier):
         tags = dict(op=op, axis=axis, asc=asc, stable=stable, innermost=bool(axis == -1 or axis == mx - 1))
         out.append(C.Case('c%d' % i, op, [str(axis), str(asc), str(stable)], [G.sx(a['layout'])],
                           dict(nontrivial=True, tags=tags, type=t)))
+    return out + long_cases(rng, n // 15)
+
+
+def long_cases(rng, n):
+    """long lists (17-70 items: std::sort leaves its insertion-sort regime above 16) of numbers with several NaN / equal
+    keys, flat or one level down, sorted and argsorted in both directions, stable and UNSTABLE.  An unstable argsort has no
+    unique answer: it is judged in run() by 'the positions are a permutation of each list and carrying the input by them
+    gives the sorted list'."""
+    out = []
+    for i in range(n):
+        dt = rng.choice(['float64', 'float64', 'float32', 'int64', 'int8'])
+        depth2 = rng.random() < 0.5
+        nl = rng.choice([1, 2, 3]) if depth2 else 1
+        lists = []
+        for _ in range(nl):
+            m = rng.choice([17, 18, 20, 33, 41, 64, 70, 0, 3])
+            pool = [rng.randint(-3, 3) for _ in range(rng.choice([2, 3, 6]))]
+            vs = []
+            for _ in range(m):
+                r = rng.random()
+                if dt.startswith('float') and r < 0.25:
+                    vs.append('nan')
+                elif dt.startswith('float') and r < 0.3:
+                    vs.append(rng.choice(['inf', '-inf']))
+                else:
+                    vs.append(str(rng.choice(pool) if rng.random() < 0.6 else rng.randint(-100, 100)))
+            lists.append(vs)
+        flat = [v for l in lists for v in l]
+        np_ = '(np %s (%d) (%s))' % (dt, len(flat), ' '.join(flat))
+        if depth2:
+            offs = [0]
+            for l in lists:
+                offs.append(offs[-1] + len(l))
+            lay = '(lo i64 (%s) %s)' % (' '.join(map(str, offs)), np_)
+        else:
+            lay = np_
+        op = rng.choice(['sort', 'argsort', 'argsort'])
+        asc = rng.choice([0, 1])
+        stable = rng.choice([0, 0, 1])
+        tags = dict(op=op, axis=-1, asc=asc, stable=stable, innermost=True, stream='long')
+        out.append(C.Case('L%d' % i, op, ['-1', str(asc), str(stable)], [lay],
+                          dict(nontrivial=True, tags=tags, type=None, unstable_argsort=(op == 'argsort' and not stable))))
     return out
+
+
+def _parse_val(s):
+    """value text of modelrun ('(l (l 1 nan) ...)') -> nested Python lists of atoms"""
+    toks = s.replace('(', ' ( ').replace(')', ' ) ').split()
+    pos = [0]
+
+    def go():
+        t = toks[pos[0]]
+        pos[0] += 1
+        if t == '(':
+            out = []
+            while toks[pos[0]] != ')':
+                out.append(go())
+            pos[0] += 1
+            return out
+        return t
+    return go()
+
+
+def run(cases, tier, rng):
+    import check
+    import sys
+    mod = sys.modules[__name__]
+    plain = [c for c in cases if not c.meta.get('unstable_argsort')]
+    unst = [c for c in cases if c.meta.get('unstable_argsort')]
+    s = check.default_run(mod, plain, tier)
+    if not unst:
+        return s
+    # unstable argsort: positions P (implementation), sorted values S (implementation, same arguments through sort),
+    # input values X: every list of P is a permutation of 0..n-1 and X carried by P equals S
+    lines, ids = [], {}
+    for c in unst:
+        lines.append(c.line())
+        c2 = C.Case(c.id + 's', 'sort', c.args, c.layouts)
+        lines.append(c2.line())
+    res, errs = C.run_driver(lines, san=(tier == 'thorough'))
+    dumps = {}
+    for c in unst:
+        dumps[c.id] = res.get(c.id, 'crash missing')
+        dumps[c.id + 's'] = res.get(c.id + 's', 'crash missing')
+        dumps[c.id + 'x'] = 'ok ' + c.layouts[0]
+    vals = C.values_of(dumps)
+    ok = True
+    nagree = 0
+    for c in unst:
+        r = dumps[c.id]
+        problem = None
+        if not r.startswith('ok '):
+            problem = 'unstable argsort %s' % r[:200]
+            kind = 'crash' if (r.startswith('crash') or r.startswith('timeout')) else 'viol'
+        else:
+            kind = 'viol'
+            try:
+                P, S, X = _parse_val(vals[c.id]), _parse_val(vals[c.id + 's']), _parse_val(vals[c.id + 'x'])
+
+                def lists_of(v):
+                    v = v[1:]        # drop the 'l' head
+                    return [x[1:] for x in v] if v and isinstance(v[0], list) else [v]
+                for pl, sl, xl in zip(lists_of(P), lists_of(S), lists_of(X)):
+                    idx = [int(q) for q in pl]
+                    if sorted(idx) != list(range(len(xl))):
+                        problem = 'positions %s are not a permutation of 0..%d' % (pl[:40], len(xl) - 1)
+                        break
+                    if [xl[q] for q in idx] != sl:
+                        problem = 'carrying the list by the positions gives %s, the sorted list is %s' % ([xl[q] for q in idx][:40], sl[:40])
+                        break
+            except Exception as e:      # unreadable result: fail closed
+                problem = 'could not judge the unstable argsort result: %r' % (e,)
+        if problem is None:
+            nagree += 1
+            continue
+        ok = False
+        s['findings'].insert(0, dict(kind=kind, what='argsort(stable=False): %s' % problem,
+                                     case_lines=[c.line(), '# impl: ' + r[:600]] + (['# stderr: ' + errs.get(c.id, '')[:1500].replace(chr(10), chr(10) + '# ')] if errs.get(c.id) else []),
+                                     signature=None, size=len(c.line())))
+    s['corr_obligations']['impl:unstable-argsort-realises-sort'] = ok
+    s['evaluations'] += len(unst)
+    s['verdicts']['agree-unstable-argsort'] = nagree
+    s['distinct_nontrivial'] += nagree
+    return s
 
 
 def _optlist_under_list(t, under=False):
